@@ -20,6 +20,13 @@ import (
 
 func init() { register("C10", "exploration", runC10) }
 
+// every kind of header the server stores with an object: an operation on another key must
+// not change any of them
+func c10PreloadMeta(b string) http.Header {
+	return drv.H("x-amz-meta-owner", b, "Content-Type", "text/x-preload", "Content-Disposition", "inline", "Content-Encoding", "identity",
+		"x-amz-acl", "public-read", "x-amz-storage-class", "STANDARD", "x-amz-tagging", "a=b", "x-amz-website-redirect-location", "/elsewhere")
+}
+
 var c10Preload = []string{"k", "d/x", "d/y", "d/e/z", "other", ".dot/file"}
 
 // storeSnapshot renders the whole store as a map of independent entries so
@@ -172,7 +179,9 @@ type c10Op struct {
 
 func c10Ops() []c10Op {
 	return []c10Op{
-		{"put", func(s *drv.Server, b, k string, body []byte) *drv.Resp { return s.Put(b, k, body, drv.H("Content-Type", "text/x-hostile")) }, true},
+		{"put", func(s *drv.Server, b, k string, body []byte) *drv.Resp {
+			return s.Put(b, k, body, drv.H("Content-Type", "text/x-hostile"))
+		}, true},
 		{"get", func(s *drv.Server, b, k string, body []byte) *drv.Resp { return s.Get(b, k) }, false},
 		{"head", func(s *drv.Server, b, k string, body []byte) *drv.Resp { return s.Head(b, k) }, false},
 		{"delete", func(s *drv.Server, b, k string, body []byte) *drv.Resp { return s.Delete(b, k) }, true},
@@ -204,7 +213,9 @@ func c10Ops() []c10Op {
 			}
 			return cr
 		}, true},
-		{"go-put", func(s *drv.Server, b, k string, body []byte) *drv.Resp { return goPut(s, b, k, bytes.NewReader(body), int64(len(body))) }, true},
+		{"go-put", func(s *drv.Server, b, k string, body []byte) *drv.Resp {
+			return goPut(s, b, k, bytes.NewReader(body), int64(len(body)))
+		}, true},
 		{"go-delete", func(s *drv.Server, b, k string, body []byte) (resp *drv.Resp) {
 			resp = &drv.Resp{Status: 204, Header: http.Header{}}
 			defer func() {
@@ -308,7 +319,7 @@ func runC10(c *Ctx) {
 				}
 			}
 			for _, k := range c10Preload {
-				if p := s.Put(b, k, []byte("preload:"+b+"/"+k), drv.H("x-amz-meta-owner", b)); p.Status != 200 {
+				if p := s.Put(b, k, []byte("preload:"+b+"/"+k), c10PreloadMeta(b)); p.Status != 200 {
 					panic("harness: preload failed: " + p.String())
 				}
 			}
@@ -419,7 +430,7 @@ func runC10(c *Ctx) {
 					// rebuild the baseline so that later cases are judged on their own
 					for _, b := range buckets {
 						for _, k := range c10Preload {
-							s.Put(b, k, []byte("preload:"+b+"/"+k), drv.H("x-amz-meta-owner", b))
+							s.Put(b, k, []byte("preload:"+b+"/"+k), c10PreloadMeta(b))
 						}
 					}
 					baseline = storeSnapshot(s, probeBuckets, extra)
@@ -614,7 +625,7 @@ func runC10(c *Ctx) {
 								s.CreateBucket(b)
 							}
 							for _, k := range c10Preload {
-								s.Put(b, k, []byte("preload:"+b+"/"+k), drv.H("x-amz-meta-owner", b))
+								s.Put(b, k, []byte("preload:"+b+"/"+k), c10PreloadMeta(b))
 							}
 						}
 						s.Delete("bkt-one", "copied-from-internal")
